@@ -460,6 +460,75 @@ def task_flips(a, env):
     return r
 
 
+# ------------------------------------------------------------------ square roots in FQ2 (the decoder's core)
+def sqrt_values(env):
+    g = rng(env, "sqrt")
+    F = zcash.E2.F
+    base = [(1, 0), (0, 1), (2, 0), (P - 1, 0), (0, P - 1), (1, 1), (P - 1, 1), (3, 5), ((P - 1) // 2, (P + 1) // 2),
+            (2 ** 64, 0), (0, 2 ** 128 - 1), (4, 0), (0, 4), (P - 4, 0), (5, 0), (0, 5), (2, 2)]
+    base += [(g.randrange(P), g.randrange(P)) for _ in range(12)]
+    base += [(g.randrange(P), 0) for _ in range(3)] + [(0, g.randrange(P)) for _ in range(3)]
+    vals = list(base) + [F.mul(b, b) for b in base]  # arbitrary values and guaranteed squares
+    out, seen = [], set()
+    for v in vals:
+        if v not in seen and not F.is_zero(v):
+            seen.add(v)
+            out.append(v)
+    return out
+
+
+def sqrt_case(v):
+    """modular_squareroot_in_FQ2: None iff the model finds no root; otherwise the root with the larger
+    (imaginary, real) pair - the documented choice"""
+    pc = _pc()
+    f = getattr(pc, "modular_squareroot_in_FQ2", None)
+    if f is None:
+        return None
+    cfg = _cfg("E2")
+    F = zcash.E2.F
+    rt = F.sqrt(v)
+    if rt is None:
+        exp = ("ok", None)
+    else:
+        a_, b_ = rt, F.neg(rt)
+        exp = ("ok", a_ if (a_[1], a_[0]) > (b_[1], b_[0]) else b_)
+    out = []
+    for lbl, x in (("int-coefficients", cfg.lib(v)), ("fq-object-coefficients", cfg.lib_fq(v))):
+        try:
+            res = f(x)
+            got = ("ok", None if res is None else cfg.mod(res))
+        except Exception as e:  # noqa: BLE001
+            got = ("raise", type(e).__name__)
+        if got != exp:
+            out.append((lbl, exp, got))
+    return out or None
+
+
+def task_sqrt(a, env):
+    r = R("modular_squareroot_in_FQ2")
+    vals = sqrt_values(env)
+    hits = {"square": 0, "non-square": 0}
+    for i, v in enumerate(vals):
+        if i % a["step"] != a["lo"]:
+            continue
+        hits["square" if zcash.E2.F.sqrt(v) is not None else "non-square"] += 1
+        bad = sqrt_case(v)
+        r.ev += 2
+        r.dk.add(v)
+        for (lbl, exp, got) in bad or []:
+            r.viol("C11:sqrt-FQ2:%s" % ("misses-root" if got == ("ok", None) else "wrong-root" if got[0] == "ok" else "raises"),
+                   ME + ":replay_sqrt", {"v": [hex(c) for c in v]}, exp, got, note=lbl)
+    r.notes["classes"] = hits
+    if a["lo"] == 0:
+        r.sample({"values": len(vals), "classes": "small / boundary / word-structured / seeded values and their squares"})
+    return r
+
+
+def replay_sqrt(a):
+    bad = sqrt_case(tuple(int(c, 16) for c in a["v"]))
+    return None if not bad else {"form": bad[0][0], "expected": bad[0][1], "observed": bad[0][2]}
+
+
 # ------------------------------------------------------------------ (D) decoder histories
 M61 = 2 ** 61 - 1  # ints that differ by a multiple of it have equal hash() in CPython
 
@@ -606,6 +675,8 @@ def run(ctx):
                 tasks.append(("flips", {"group": group, "k": k, "lo": lo if not q else lo * 2,
                                         "step": nt if not q else 8}))
     tasks.append(("collide", {"ks": [1, 2, 0x1234567890ABCDEF]}))
+    for lo in range(4):
+        tasks.append(("sqrt", {"lo": lo, "step": 4}))
     for group, n in (("E2", 1100 if q else 4500), ("E1", 2200 if q else 20000)):
         for via in (False, True):
             tasks.append(("sweep", {"group": group, "n": n, "vias": [via]}))
